@@ -150,6 +150,14 @@ def r2_vtables(ctx):
             while t[0] == 'cast':
                 t = t[2]
             ok = False
+            # an optional slot (`clone: Option<unsafe fn(..)>`): `None` installs no thunk at all, `Some(f)` is judged by f
+            if t[0] == 'agg' and str(t[1]).endswith('Option::None'):
+                ctx.ok('slot `%s` of %s is empty (no thunk installed)' % (name, short(f.key)), f.where())
+                continue
+            if t[0] == 'agg' and str(t[1]).endswith('Option::Some') and t[2]:
+                t = t[2][0]
+                while t[0] == 'cast':
+                    t = t[2]
             if t[0] == 'fnitem' and name in ROLE and t[1] in ROLE[name]:
                 want = ROLE[name].get(t[1])
                 if want is True:
@@ -452,7 +460,10 @@ def r7_set_content_and_clone(ctx):
     if f is None:
         ctx.violation('anchor:Message::try_clone', 'unresolved-anchor Message::try_clone'); return
     ctx.touch(f)
-    direct = f.calls_to(BODY + '::try_clone')
+    direct = list(f.calls_to(BODY + '::try_clone'))
+    # ... or handed to Option::map as a function value (`content.as_ref().map(Body::try_clone)`): the paths below then branch on
+    # the reduced payload `Body::try_clone((content as Some).0)`
+    direct += [k for k in f.fn_items_passed() if k == BODY + '::try_clone']
     if not ctx.check(len(direct) == 1, 'clone-failure-propagated', 'Message::try_clone inspects the result of Body::try_clone itself (a failed body clone must make the whole clone fail, not yield a body-less message)', f.where()):
         return
     n = 0
